@@ -38,11 +38,26 @@ def pair_of_start(s, out, start_op):
 def run(chk):
     chk.prove()
     rnd = random.Random(chk.seed)
-    n1 = 220 if chk.quick() else 5000
+    n1 = 220 if chk.quick() else 2500
     scns = [session.build_delivery(rnd, small=True) for _ in range(n1)]
     # last slot of the device / every ring position comes from the histories; add large-loss scenarios beyond capacity
     scns += c15.loss_cases(rnd, chk.quick())
     scns += c15.capacity_cases(rnd, True)[::7]
+    # one fragment more than fits (fragment size not dividing the data region): rejected on the unchanged tree; if it were
+    # accepted, storing the last fragment would leave the slot
+    for _ in range(40 if chk.quick() else 600):
+        blk = rnd.choice([64, 256, 512]); sz = rnd.choice([3, 7, 40, 100, 255, 256, 129])
+        slot = -(-(session.DRO + rnd.choice([68, 100, 255, 300, 777, 1500, 4000])) // blk) * blk
+        room = (slot - session.DRO) // sz
+        if (slot - session.DRO) % sz == 0:
+            continue
+        n = room + 1
+        t = session.Scn(rnd.choice([4, 5]), slot, blk)
+        for _h in range(rnd.randint(0, 2)):
+            t.add("start 8 2"); t.add("seg 1 ffffffff01020304"); t.add("seg 2 0506070809101112"); t.add("done")
+        t.meta = {"kind": "one-too-many"}
+        t.add("start %d %d" % (sz, n)); t.add("seg %d %s" % (n, "5a" * sz)); t.add("seg %d %s" % (max(1, n - 1), "a5" * sz)); t.add("hdrs")
+        scns.append(t)
     lines, impl, outs = session.run(chk, scns, stream="session-oplog")
     nt, nops, dist = [], 0, {"erases": 0, "programs": 0, "scenarios_in_last_slot": 0}
     for s, l, raw, out in zip(scns, lines, impl, outs):
@@ -68,6 +83,6 @@ def run(chk):
     chk.cov["evaluations"] += r["transitions"]
     chk.cov["streams"]["ring-closure[N=4]"].update({"states": r["states"], "transitions": r["transitions"], "closed": r["exhaustive"]})
     return chk.finish(level="proof", extra={"flash_operations_monitored": nops},
-        rule="session-oplog: deliveries with ring histories (all slot positions incl. the last slot), losses up to and beyond the capacity, geometries over all fragment sizes; every erase / program is checked: inside one slot, inside the session's pair, "
+        rule="session-oplog: deliveries with ring histories (all slot positions incl. the last slot), losses up to and beyond the capacity, geometries over all fragment sizes, fragment counts one beyond what fits followed by the last fragments; every erase / program is checked: inside one slot, inside the session's pair, "
              "header-area programs = one of the seven fields, no 0->1 need; ring closure: correspondence of every other call's operation log; non-trivial = every scenario (all issue flash operations); distinct by case text",
         trusted=core.TRUSTED_COMMON + ["C08: read-back equality follows from 'no program needs a 0->1 transition' under the AND-program device model of SimNor / Nor.v"])
